@@ -3,10 +3,19 @@ package main
 import (
 	"fmt"
 	"go/types"
+	"path/filepath"
 	"strings"
 
 	"golang.org/x/tools/go/ssa"
 )
+
+// exceptionRoot: the outermost enclosing function of a closure.
+func exceptionRoot(f *ssa.Function) *ssa.Function {
+	for f.Parent() != nil {
+		f = f.Parent()
+	}
+	return f
+}
 
 // srcFuncsIn returns the source-level functions (no synthetic wrappers) of a reach set.
 func srcFuncsIn(r *Reach) []*ssa.Function {
@@ -148,9 +157,9 @@ func init() {
 	})
 	register(&propDef{
 		ID:          "C15",
-		Explanation: "Thin: decides that no function under $distinct (and nothing else under Eval) uses a map with interface keys indexed by a dynamically typed value (panics on arrays/objects/functions) or an fmt.Sprint rendering as the identity of a value (conflates {\"a\":1} and {\"a\":\"1\"}); and FIN for the aggregate functions $sum/$max/$min/$average (no unguarded overflow). NOT decided: every other definitional clause (visit order, fold direction, permutation), which are value-level.",
+		Explanation: "Decides: (W) the array, higher-order and aggregate built-ins of jlib/array.go, hof.go and aggregate.go write only memory they allocated themselves — no append into the spare capacity of an argument, no in-place reversal or sort — so a result never shares storage with an argument or with another result; (HASH) no function under $distinct (and nothing else under Eval) uses a map with interface keys indexed by a dynamically typed value (panics on arrays/objects/functions) or an fmt.Sprint rendering as the identity of a value (conflates {\"a\":1} and {\"a\":\"1\"}); and FIN for the aggregate functions $sum/$max/$min/$average (no unguarded overflow). NOT decided: every other definitional clause (visit order, fold direction, permutation), which are value-level.",
 		Rule:        commonRule,
-		Fixtures:    []string{"hash", "fin"},
+		Fixtures:    []string{"hash", "fin", "w"},
 		Run: func(c *Ctx, r *Result) {
 			d := c.mustFn(r, "jlib.Distinct")
 			if d != nil {
@@ -171,6 +180,21 @@ func init() {
 			e := newFIN(c, c.G)
 			k := runFINBoxed(c, e, r, "FIN", map[string]bool{"jlib.Sum": true, "jlib.Max": true, "jlib.Min": true, "jlib.Average": true})
 			r.RequireMin("FIN aggregate success returns", k, 8)
+			// the array, higher-order and aggregate built-ins are functions of their arguments: they
+			// build their results in memory of their own and never write into (the spare capacity
+			// of) an argument — otherwise two results derived from one array share storage and a
+			// later call rewrites an earlier result
+			files := map[string]bool{"array.go": true, "hof.go": true, "aggregate.go": true}
+			for _, name := range []string{"jlib.Map", "jlib.Filter", "jlib.Reduce", "jlib.Single", "jlib.Append", "jlib.Reverse", "jlib.Zip", "jlib.Distinct", "jlib.Shuffle", "jlib.Sum", "jlib.Max", "jlib.Min", "jlib.Average"} {
+				c.mustFn(r, name)
+			}
+			runWFiltered(c, c.G, r, "W", evalRootCfg(c), func(s wSite) bool {
+				if s.f.Pkg == nil || s.f.Pkg.Pkg.Name() != "jlib" {
+					return false
+				}
+				return files[filepath.Base(c.W.Fset.Position(s.ins.Pos()).Filename)] || files[filepath.Base(c.W.Fset.Position(exceptionRoot(s.f).Pos()).Filename)]
+			})
+			r.RequireMin("W write sites examined (root Eval/EvalBytes/String)", r.Counts["W write sites examined (root Eval/EvalBytes/String)"], 20)
 		},
 	})
 	register(&propDef{
